@@ -10,6 +10,8 @@ for d in sorted((V / "seeded").iterdir()):
     if not m.exists():
         continue
     j = json.loads(m.read_text())
+    if 'property' not in j:
+        continue
     needs = j.get("needs", "")
     what = j.get("what", "")
     clauses = []
